@@ -116,8 +116,37 @@ class Gen:
                 if i is not None: return r.choice([f"start h{i} 1 1", f"again h{i}"])
         return "alive"
 
+    def build_fs_traffic(self):
+        """fs_event handles that do receive events; close / stop issued from inside fs_event callbacks (own, sibling,
+        last watcher of the path).  Monitors only."""
+        r = self.r
+        self.cfg += [f"config metrics {int(r.chance(1, 2))}", "config clock0 1000", f"config cblimit {r.range(10, 30)}"]
+        n = r.range(1, 3)
+        for i in range(n):
+            self.kinds.append("fs_event"); self.main.append("op init fs_event")
+        extra = r.choice(["timer", "idle", "check", "async"])
+        self.kinds.append(extra); self.main.append(f"op init {extra}")
+        for i in range(n):
+            self.main.append(f"op start h{i} 0 0")
+        for i in range(n):
+            for occ in range(2):
+                if r.chance(2, 3):
+                    tgt = r.below(n)
+                    ops = [r.choice([f"close h{i}", f"close h{tgt}", f"stop h{i}", f"stop h{tgt}", f"start h{tgt} 0 0", "alive", "touch"])
+                           for _ in range(r.range(1, 3))]
+                    self.on.append(f"on h{i} {occ} " + " ; ".join(ops))
+        for _ in range(r.range(1, 3)):
+            for _ in range(r.range(1, 2)): self.main.append("op touch")
+            self.main.append("op run " + r.choice(["NOWAIT", "NOWAIT", "ONCE"]))
+        for i in range(len(self.kinds)):
+            self.main.append(f"op close h{i}")
+        self.main += ["op run NOWAIT", "op run NOWAIT", "op loop_close"]
+        return self.cfg + self.on + self.main
+
     def build(self):
         r = self.r
+        if r.chance(1, 12 if self.bias != "C02" else 6):
+            return self.build_fs_traffic()
         self.cfg.append(f"config metrics {int(r.chance(1, 2))}")
         self.cfg.append(f"config clock0 {r.choice([1000, 1000, 5, 123456789])}")
         self.cfg.append(f"config cblimit {r.range(12, 30 + 10 * self.size)}")
@@ -445,6 +474,18 @@ class Mon:
                 depth -= 1
                 if cbstack: cbstack.pop()
                 i += 1; continue
+            if l.startswith("res "):
+                # resources_released: after the close callback of an fs_event handle its kernel watch is gone unless
+                # another started fs_event handle still watches the (single) directory
+                m = re.match(r"res h(\d+) iw=(-?\d+)$", l)
+                if m and last_obs is not None:
+                    others = [h for h, f in last_obs["hs"].items() if H.get(h, {}).get("kind") == "fs_event" and f[0] == "A"]
+                    want = 1 if others else 0
+                    self.stats["fs_watch_checked"] = self.stats.get("fs_watch_checked", 0) + 1
+                    if int(m.group(2)) != want:
+                        self.bad("C02", "fs-event-watch-leak", f"after close_cb of fs_event h{m.group(1)} the loop's inotify descriptor holds "
+                                 f"{m.group(2)} kernel watch(es); {want} expected (other active watchers: {others})", i)
+                i += 1; continue
             if l.startswith("REENTRANT-CALLBACK"):
                 self.bad("C02", "close-reentrant", "uv_close invoked a callback re-entrantly", i)
                 i += 1; continue
@@ -749,6 +790,8 @@ def prog_metrics(prog):
 
 
 def evaluate(ctx, exe, prog, tag, with_model=True):
+    if any(re.search(r"\btouch\b", l) for l in prog):
+        with_model = False       # file-system traffic: monitors only (the model has no inotify event semantics)
     rc, log, err = run_impl(ctx, exe, prog, tag)
     mon = monitors(log, rc, err, prog_metrics(prog))
     try:
@@ -761,7 +804,7 @@ def evaluate(ctx, exe, prog, tag, with_model=True):
         if ml != log:
             k = next((j for j in range(min(len(ml), len(log))) if ml[j] != log[j]), min(len(ml), len(log)))
             diff = (k, log[k] if k < len(log) else None, ml[k] if k < len(ml) else None)
-    return dict(rc=rc, log=log, err=err, mon=mon, diff=diff)
+    return dict(rc=rc, log=log, err=err, mon=mon, diff=diff, modelled=with_model)
 
 
 def shrink(ctx, exe, prog, pid, sig, budget=120):
@@ -878,13 +921,32 @@ def drive(ctx, pid, modules, bias_mix, quick_n, thorough_n):
             if ndiff == 1:
                 ctx.broken_correspondence("loop model vs implementation (sim_loop.c / uvdriver loop)",
                                           f"case {name} line {e['diff'][0] + 1}: impl `{e['diff'][1]}` model `{e['diff'][2]}`; program: {prog}")
-        if e["rc"] == 0 and not e["diff"]:
+        if e["rc"] == 0 and not e["diff"] and e["modelled"]:
             ctx.validated()
+        if not e["modelled"]: agg["monitor_only_cases"] = agg.get("monitor_only_cases", 0) + 1
         if mon.stats["ops_in_cb"] >= 1 and len(mon.kinds_used) >= 2:
             ctx.nontrivial(shape_hash(prog))
         if len(ctx.cov["samples"]) < 3:
             ctx.sample({"program": prog[:25]})
     ctx.notes["input_distribution"] = {"ops": dict(sorted(hist.items())), "log_stats": agg, "cases": len(cases), "model_diffs": ndiff}
+    g = lambda k: agg.get(k, 0)
+    # DESIGN.md Appendix C rows reached by this run (hit counts measured on the implementation logs)
+    ctx.notes["rows"] = {
+        "C01 handle_start/stop/ref/unref counter": hist.get("ref", 0) + hist.get("unref", 0) + hist.get("cb:ref", 0) + hist.get("cb:unref", 0) + hist.get("start", 0) + hist.get("stop", 0),
+        "C01 req register/unregister pairing (incl. synchronous rejections)": hist.get("work", 0) + hist.get("cb:work", 0) + hist.get("udp_send", 0) + hist.get("reject", 0) + hist.get("cb:reject", 0) + hist.get("work_null", 0) + hist.get("connect_bad", 0),
+        "C01 uv__loop_alive / run exit": g("runs"),
+        "C01 uv_loop_close (EBUSY seen)": g("ebusy"),
+        "C01/C02 uv__finish_close (observations inside close_cb)": g("alive_in_close_phase") + g("close_from_cb"),
+        "C02 uv_close per-type teardown (closes from callbacks)": g("close_from_cb"),
+        "C02 run_closing detaches list (close in same phase)": g("close_same_phase"),
+        "C02 fs_event watch release checked": g("fs_watch_checked"),
+        "C03 phase sequence (iterations)": g("iterations"),
+        "C03 uv__backend_timeout (timeouts checked / lenient)": [g("timeout_checked"), g("timeout_lenient")],
+        "C03 io_poll timeout loop (EINTR re-polls)": g("eintr"),
+        "C03 deadlock marker (timeout -1, nothing ready)": g("deadlock"),
+        "monitor-only cases (fs traffic)": g("monitor_only_cases"),
+        "ops refused as not Legal (bad-op)": g("bad_ops"),
+    }
     if (ctx.broken and not ctx.violations):
         # a proof / the correspondence no longer checks: search with the monitors alone on an enlarged generation
         ctx.log("obligation broken; searching for a failing input with the monitors")
